@@ -233,6 +233,16 @@ class Interp(Engine):
 
     e_GeneratorExp = e_ListComp
 
+    step2_yields = None
+
+    def e_Yield(self, n):
+        # only inside a step extracted by builtins_.extract_step2: `(yield e)` = emit e and suspend
+        ys = self.step2_yields
+        if not ys or id(n) not in ys:
+            raise Unsupported("yield outside an extracted step (line %s)" % getattr(n, "lineno", "?"))
+        v = self.eval(n.value) if n.value is not None else None
+        raise B.StepYield(v, ys[id(n)])
+
     def e_Call(self, n):
         # ignored effects: console.*(...) and the evaluation of their arguments
         root = n.func
@@ -377,6 +387,8 @@ class Interp(Engine):
                 self.oblige("safe", z3.BoolVal(False), "%s has attribute %s" % (getattr(obj, "__name__", obj), attr),
                             assume_after=False)
                 raise PyRaise(ExcV(AttributeError, (attr,), {"reported": True}))
+        if isinstance(obj, B.GenV):
+            return BoundExt(obj, attr)
         raise Unsupported("attribute .%s of %r (line %d)" % (attr, obj, self.cur_line))
 
     def setattr_v(self, obj, attr, val):
@@ -741,10 +753,18 @@ class Interp(Engine):
         invs = spec.get("inv", [])
         line = s.lineno
         ivar = "_i"
+        # nested invariant for-loops share the index name `_i`: when this loop runs inside the body of an enclosing
+        # invariant for-loop of the same frame, the enclosing loop's index value is put back when this loop is left
+        outer_i = fr.env.get(ivar) if (kind == "for" and getattr(fr, "_for_depth", 0) > 0) else None
         if kind == "for":
             fr.env[ivar] = 0
             if spec.get("index_name"):
                 fr.env[spec["index_name"]] = 0
+        # optional ghost callables of the loop spec (specification-only state, like statement-anchored ghost hooks but
+        # independent of statement text): "enter" before the entry check, "body_begin" / "body_end" around one
+        # execution of the body from the invariant state, "exit" on the path that leaves the loop by its condition
+        if spec.get("enter"):
+            spec["enter"](self)
         # 1. invariant holds on entry
         self.cur_line = line
         for text in invs:
@@ -766,6 +786,13 @@ class Interp(Engine):
                 fr.env[name] = self.fresh_val("hv_" + name, ty)
             elif name in spec.get("locals", {}):
                 fr.env[name] = self.fresh_val("hv_" + name, spec["locals"][name])
+        # a local assigned in the body and not bound before the loop is, at an arbitrary iteration, either still
+        # unbound or bound to some value: `maybe_unbound={name: type}` explores both (demonic choice) instead of
+        # leaving the name unbound
+        for name, ty_ in (spec.get("maybe_unbound") or {}).items():
+            if name not in fr.env or fr.env[name] is _UNBOUND:
+                if self.branch(self.fresh("bound_" + name, z3.BoolSort()), free=True):
+                    fr.env[name] = self.fresh_val("hv_" + name, ty_)
         if kind == "for":
             iv = self.fresh_val("hv_i", INT)
             fr.env[ivar] = iv
@@ -775,6 +802,9 @@ class Interp(Engine):
             arr = self.heap.get(hk)
             if arr is None:
                 continue
+            # what this loop may write is also written by one execution of the body of every ENCLOSING invariant loop
+            # (the havoc below is not a recorded write): tell their write recorders, so that their havoc covers it
+            self.note_write(hk, None if (rs == ALL or hk[0] in ("ct", "ctlen")) else rt)
             if hk[0] in ("ct", "ctlen"):
                 self.heap[hk] = self.fresh("hv_" + "_".join(map(str, hk)), arr.sort())
                 if hk[0] == "ctlen":
@@ -800,25 +830,39 @@ class Interp(Engine):
             self.assume(i <= n)   # immutable iterable: by construction; list: implicit invariant (obligation below)
             go = self.branch(i < n)
         if not go:
+            if spec.get("exit"):
+                spec["exit"](self)
             self.exec_block(s.orelse)
+            if outer_i is not None:
+                fr.env[ivar] = outer_i
             return
         # 5. body from an arbitrary invariant state
         rec = set()
         if not hasattr(self, "_wrec"):
             self._wrec = []
         self._wrec.append(rec)
+        if kind == "for":
+            fr._for_depth = getattr(fr, "_for_depth", 0) + 1
         try:
             if kind == "for":
                 self.assign(s.target, B.iter_at(self, it, zint(fr.env[ivar])))
+            if spec.get("body_begin"):
+                spec["body_begin"](self)
             try:
                 self.exec_block(s.body)
             except _Cont:
                 pass
             except _Brk:
                 self._note_loop_writes(wkey, wset, rec)
+                if outer_i is not None:
+                    fr.env[ivar] = outer_i
                 return     # leaves the loop with the state at the break
+            if spec.get("body_end"):
+                spec["body_end"](self)
         finally:
             self._wrec.pop()
+            if kind == "for":
+                fr._for_depth -= 1
         self._note_loop_writes(wkey, wset, rec)
         if kind == "for":
             nxt = Sym(zint(fr.env[ivar]) + 1, "int")
@@ -975,6 +1019,8 @@ class Interp(Engine):
             pass
         env = self.bind_args(fv.node, args, kwargs, fv.self, qual)
         self.resolve_defaults(env, fv.rel)
+        if c is not None and "step2" in c.tags and B.is_generator(fv.node):
+            return B.GenV(fv, env, c)     # calling a generator function runs no code: a generator object
         if c is not None and not self.force_inline:
             return self.call_contract(c, fv, env)
         if not self.reg.may_inline(fv.rel, qual, self):
